@@ -157,7 +157,20 @@ func (g *G) coefLen(n int) *big.Int {
 	}
 	span := new(big.Int).Sub(hi, lo)
 	var c *big.Int
-	switch g.pick(6) {
+	switch g.pick(7) {
+	case 4:
+		// sparse tail: the last k digits are zero except one (and possibly a leading 5 or 0): what a sticky
+		// flag must not lose, wherever in a dropped group the digit sits
+		k := 1 + g.pick(n)
+		c = new(big.Int).Rand(g.r, span)
+		c.Add(c, lo)
+		m := pow10(k)
+		c.Sub(c, new(big.Int).Mod(c, m))
+		j := g.pick(k)
+		c.Add(c, new(big.Int).Mul(big.NewInt(int64(1+g.pick(9))), pow10(j)))
+		if g.chance(0.5) && k >= 2 && j < k-1 {
+			c.Add(c, new(big.Int).Mul(big.NewInt(5), pow10(k-1)))
+		}
 	case 0:
 		c = new(big.Int).Set(lo)
 	case 1:
